@@ -12,9 +12,17 @@ import (
 
 func init() { register("C02", checkC02) }
 
-var quorumForms = []map[string]int64{
-	{"len(field rbc.idSet)": 1, "field rbc.N": -1},
-	{"len(rbc.idSet)": 1, "field rbc.N": -1},
+// quorumForms: len(voucher set) − N in linear normal form, keyed through the resolved field and type
+// (so that renaming them changes nothing).
+var quorumForms []map[string]int64
+var quorumNKey string
+
+func setQuorumForms(r *rbcModel) {
+	quorumNKey = "field " + fieldKey(r.fN)
+	quorumForms = []map[string]int64{
+		{"len(field " + fieldKey(r.fEntryIDSet) + ")": 1, quorumNKey: -1},
+		{"len(" + types.TypeString(r.idSet, shortQual) + ")": 1, quorumNKey: -1},
+	}
 }
 
 func checkC02(c *Ctx) {
@@ -38,7 +46,7 @@ func checkC02(c *Ctx) {
 	ruleC02G3(c, t, "C02.G3")
 	ruleC02W1(c, t)
 	ruleC02V3(c, t)
-	c.Rule("C02.V4", "constructors build the RBC receiver from the factory's arguments unchanged", 2)
+	c.Rule("C02.V4", "constructors build the RBC receiver from the factory's arguments unchanged", 1)
 	ruleConstructorWiring(c, t, "C02.V4", "")
 }
 
@@ -114,7 +122,7 @@ func ruleC02N1(c *Ctx, r *rbcModel, rule string) {
 				for _, f := range sc.Facts() {
 					if l, op, lok := linFact(f); lok {
 						for t := range l.Terms {
-							if t == "field rbc.N" {
+							if t == quorumNKey {
 								why += fmt.Sprintf("; found %s %s 0", l.String(), op)
 							}
 						}
@@ -130,9 +138,8 @@ func ruleC02N1(c *Ctx, r *rbcModel, rule string) {
 func ruleC02G2(c *Ctx, r *rbcModel) {
 	const rule = "C02.G2"
 	const ruleO = "C02.O1"
-	c.Rule(rule, "digest≠pinned digest ⇒ sticky flag set, no insertion/hand-over reachable; flag tested first in Receive", 3)
-	c.Rule(ruleO, "pin written on the not-yet-pinned arm, keyed like the lookup, before any voucher insertion", 2)
-
+	c.Rule(rule, "digest≠pinned digest ⇒ sticky flag set, no insertion/hand-over reachable; flag tested first in Receive", 1)
+	c.Rule(ruleO, "pin written on the not-yet-pinned arm, keyed like the lookup, before any voucher insertion", 1)
 	// (a) stores of true into the sticky flag
 	var flagStores []*ssa.Store
 	for _, st := range storesToField(r.fns, r.fEquiv) {
@@ -270,8 +277,8 @@ func ruleC02G2(c *Ctx, r *rbcModel) {
 			"dominated by the not-found arm of the lookup with the same key value",
 			"the pin is overwritten even when a digest is already pinned (or keyed differently from the lookup): the first value no longer wins")
 		// key = (sender, round) of the reception, value = digest of the reception
-		ks := structFieldValue(pin.Key, fieldByName(pin.Key.Type(), "s"), 0)
-		kr := structFieldValue(pin.Key, fieldByName(pin.Key.Type(), "r"), 0)
+		ks := structFieldValue(pin.Key, r.m.Field(PkgRBC, "senderAndRound", "s"), 0)
+		kr := structFieldValue(pin.Key, r.m.Field(PkgRBC, "senderAndRound", "r"), 0)
 		okk := ks != nil && kr != nil && isRecField(ks, r.fRecSender) && isRecField(kr, r.fRecRound) && isRecField(pin.Value, r.fRecDigest)
 		c.Check(okk, ruleO, FuncName(fn), "pin key/value provenance", r.m.Pos(pin.Pos()),
 			"key = (reception.sender, reception.msgRound), value = reception.digest",
@@ -279,8 +286,8 @@ func ruleC02G2(c *Ctx, r *rbcModel) {
 		// every insertion in fn reachable from the not-found arm passes the pin
 		if lk != nil {
 			for _, mu := range r.inserts {
-				if mu.Parent() != fn {
-					continue
+				if mu.Parent() != fn || !blockReaches(lk.Block(), mu.Block(), nil) {
+					continue // another registration path of the same function (e.g. the acknowledgement arm)
 				}
 				// remove pin block: is the insertion still reachable from entry along the not-found arm?
 				okp := pin.Block().Dominates(mu.Block()) || !reachAvoiding(fn.Blocks[0], mu.Block(), pin.Block()) || pinOnAllNotFoundPaths(lk, pin, mu)
@@ -369,6 +376,14 @@ func reachAvoiding(from, to, avoid *ssa.BasicBlock) bool {
 // the insertion is unreachable when the pin's block is removed.
 func pinOnAllNotFoundPaths(lk *ssa.Lookup, pin *ssa.MapUpdate, mu *ssa.MapUpdate) bool {
 	fn := pin.Parent()
+	// edges on which the lookup's ok flag is true ("already pinned") are infeasible on a not-found path,
+	// however many times the flag is tested
+	type edge struct {
+		b *ssa.BasicBlock
+		k int
+	}
+	found := map[edge]bool{}
+	var starts []*ssa.BasicBlock
 	for _, b := range fn.Blocks {
 		iff, ok := b.Instrs[len(b.Instrs)-1].(*ssa.If)
 		if !ok {
@@ -383,13 +398,40 @@ func pinOnAllNotFoundPaths(lk *ssa.Lookup, pin *ssa.MapUpdate, mu *ssa.MapUpdate
 			continue
 		}
 		// f.True tells what holds on the then-arm for the ok flag
-		notFound := b.Succs[0]
 		if f.True {
-			notFound = b.Succs[1]
+			found[edge{b, 0}] = true
+			starts = append(starts, b.Succs[1])
+		} else {
+			found[edge{b, 1}] = true
+			starts = append(starts, b.Succs[0])
 		}
-		return !reachAvoiding(notFound, mu.Block(), pin.Block())
 	}
-	return false
+	if len(starts) == 0 {
+		return false
+	}
+	// from every not-found arm: is the insertion reachable without passing the pin (and without taking a found edge)?
+	for _, st := range starts {
+		seen := map[*ssa.BasicBlock]bool{}
+		stack := []*ssa.BasicBlock{st}
+		for len(stack) > 0 {
+			b := stack[len(stack)-1]
+			stack = stack[:len(stack)-1]
+			if seen[b] || b == pin.Block() {
+				continue
+			}
+			seen[b] = true
+			if b == mu.Block() {
+				return false
+			}
+			for k, s2 := range b.Succs {
+				if found[edge{b, k}] {
+					continue
+				}
+				stack = append(stack, s2)
+			}
+		}
+	}
+	return true
 }
 
 // reachesSink: function (transitively, static calls) contains a voucher insertion or hand-over.
